@@ -255,7 +255,10 @@ func tail(s string, n int) string {
 func classOf(r *EpisodeResult) string {
 	if r.Crash != "" {
 		kind, sig := crashSignature(r.Crash)
-		if kind == "crash" {
+		if kind == "crash" || ((kind == "resource" || kind == "watchdog") && r.Prop == "C05") {
+			// C05 claims that the host survives: its workloads request no large
+			// allocations, so a worker that dies of memory exhaustion (6 GiB cap)
+			// was made to allocate without bound by the script
 			return "crash:" + sig
 		}
 		return ""
@@ -479,12 +482,17 @@ func cmdCheck(args []string) int {
 		cl := classOf(r)
 		verdicts[j.ID] = cl
 		if r.Crash != "" {
-			kind, sig := crashSignature(r.Crash)
+			kind, _ := crashSignature(r.Crash)
 			switch kind {
 			case "resource":
 				a.resourceDeaths++
-				a.inconclusive["worker died: "+sig]++
+				if id != "C05" {
+					infra = append(infra, fmt.Sprintf("seed %d: worker died of memory exhaustion\n%s", j.Seed, tail(r.Crash, 800)))
+				}
 			case "watchdog":
+				if id == "C05" {
+					break // a call that never comes back from native code: reported as a violation class
+				}
 				infra = append(infra, fmt.Sprintf("seed %d: watchdog\n%s", j.Seed, tail(r.Crash, 1500)))
 			}
 		}
@@ -577,6 +585,13 @@ func cmdCheck(args []string) int {
 		first := recs[0]
 		p := gen.Generate(id, first.job.Seed, *tier)
 		path, ok := minimiseAndRecord(cfg, pc, p, cl, first.res)
+		if !ok && strings.HasPrefix(cl, "crash:hang:") {
+			// a hang that does not repeat in a fresh process was the machine, not the code
+			fmt.Printf("note: %d episode(s) hit the watchdog (first seed %d) but ran normally when repeated alone; counted as inconclusive\n", len(recs), first.job.Seed)
+			a.inconclusive["watchdog, not reproduced alone"] += len(recs)
+			nViol -= len(recs)
+			continue
+		}
 		if !ok {
 			fmt.Fprintf(os.Stderr, "violation class %q (seed %d, %d episodes) did not reproduce on replay in a fresh process: not reported (exit 2)\n", cl, first.job.Seed, len(recs))
 			exit = 2
